@@ -88,7 +88,7 @@ impl Client {
         let timeout = Some(Duration::from_secs(60));
         let mut last = String::new();
         // The listener may not be accepting yet right after start-up.
-        for _ in 0..100 {
+        for _ in 0..1800 {
             let res = match &self.target {
                 Target::Unix(path) => {
                     UnixStream::connect(path).map_err(|e| e.to_string())
